@@ -1,9 +1,10 @@
 #!/bin/bash
-# Run every seeded change against the check(s) named in its meta.json ("property" plus optional "also").
+# Run every seeded change against the check(s) named in its meta.json ("checks" if present, else "property").
+# Mutates /repo while it runs (apply, check, undo): run no other check and no test suite meanwhile.
 cd /verif
 for d in seeded/M*; do
   [ -f $d/patch.diff ] || continue
-  pid=$(python3 -c "import json; print(json.load(open('$d/meta.json'))['property'])")
-  out=$(tools/run_mutant.sh /verif/$d/patch.diff $pid 2>&1 | head -1)
+  pids=$(python3 -c "import json; m=json.load(open('$d/meta.json')); print(' '.join(m.get('checks') or [m['property']]))")
+  out=$(tools/run_mutant.sh /verif/$d/patch.diff $pids 2>&1 | grep -v "^ *what:" | tr '\n' ' ')
   echo "$(basename $d): $out"
 done
